@@ -250,7 +250,10 @@ class Drillhole(Points):
         if value is not None:
             self._surveys = self.format_survey_values(value)
             self.workspace.update_attribute(self, "surveys")
-            self.end_of_hole = float(self._surveys["Depth"][-1])
+            last_station = float(self._surveys["Depth"][-1])
+            if self._end_of_hole is None or self._end_of_hole < last_station:
+                # a hole ends no higher than its last station; a deeper end is kept
+                self.end_of_hole = last_station
             self._trace = None
             self.workspace.update_attribute(self, "trace")
 
